@@ -169,7 +169,10 @@ FORMS = {
         ("f(_,...[b,c])(a)", "{f}(_, ...[{b}, {c}])({a})"), ("f(_,b,...[c])(a)", "{f}(_, {b}, ...[{c}])({a})"),
         ("f(...[a],_,c)(b)", "{f}(...[{a}], _, {c})({b})")],
 }
-INLINE_KINDS = ("list", "vector", "bytes", "dict", "str", "stream")
+INLINE_KINDS = ("list", "vector", "bytes", "str", "stream")
+# a second dict INSTANCE has its own random iteration order, which shows in the Display text of function-valued
+# results: tuples with a dict argument are not re-spelt inline
+NO_INLINE_KINDS = ("dict",)
 INLINE_FORMS = {1: 2, 2: 6, 3: 2}          # how many leading forms of each arity also get an inline spelling
 F_LSEC = ("(a f)(b)", "({a} {f})({b})")
 F_RSEC = ("f(b)(a)", "{f}({b})({a})")
@@ -203,7 +206,7 @@ def forms_for(c, args, isfn):
     out = [(n, c.render(t, args)) for n, t in FORMS[ar]]
     # the same forms with the arguments written inline (fresh, uniquely owned temporaries instead of
     # values held by a variable): copy-on-write fast paths must not change the result
-    if any(pool.BY_NAME[a][2] in INLINE_KINDS for a in args):
+    if any(pool.BY_NAME[a][2] in INLINE_KINDS for a in args) and not any(pool.BY_NAME[a][2] in NO_INLINE_KINDS for a in args):
         inl = ["(%s)" % pool.BY_NAME[a][1] for a in args]
         for n, t in FORMS[ar][:INLINE_FORMS[ar]]:
             out.append(("inline " + n, c.render(t, inl)))
@@ -360,6 +363,7 @@ def judge(c, args, forms, evs):
     base_s, base_e = byname[BASE[ar]]
     vd.ok_base = base_e.get("o") == "ok"
     sym = [n for n, _ in FORMS[ar]]
+    sym += [n for n, _ in forms if n.startswith("inline ")]
     if ar == 2 and F_LSEC[0] in byname:
         sym.append(F_LSEC[0])
     groups = []     # [[rep_event, [names]]]
